@@ -155,6 +155,48 @@ theorem expression_code_binds_nothing :
 example : "Lookup" ∈ MJ.Gen.c18ExprInstructions ∧ "StoreLocal" ∈ MJ.Gen.c18BindingInstructions := by
   decide
 
+/-- who may ask the render context for a key, by class -/
+def allowedContextReaders : List (String × String) := [
+  -- the resolution itself and its two VM callers (`Lookup`, `CallFunction`): the model's `lookups`
+  ("minijinja/src/vm/context.rs::load", "name resolution"),
+  ("minijinja/src/vm/state.rs::lookup", "name resolution (also the public API for host callables)"),
+  ("minijinja/src/vm/mod.rs::eval_impl", "Lookup / CallFunction instructions"),
+  -- macro closures: `Enclose` at the declaration, the base context handed to the macro frames
+  ("minijinja/src/vm/context.rs::enclose", "macro closure construction"),
+  ("minijinja/src/vm/mod.rs::eval_macro", "macro frames (base context)"),
+  -- public API of `State` for host code: a host callable may read anything (outside the property)
+  ("minijinja/src/vm/state.rs::call_macro", "public API"),
+  ("minijinja/src/vm/state.rs::known_variables", "public API"),
+  ("minijinja/src/vm/context.rs::known_variables", "public API / debug"),
+  -- debug mode only: error reports and `debug()` dump the variables (documented exclusion,
+  -- known finding debug-info:referenced-locals)
+  ("minijinja/src/vm/state.rs::make_debug_info", "debug mode"),
+  ("minijinja/src/vm/context.rs::fmt", "debug mode"),
+  -- minijinja-contrib: documented configuration keys (TIMEZONE, DATETIME_FORMAT, DATE_FORMAT,
+  -- TIME_FORMAT, TRUNCATE_LEEWAY, RAND_SEED) read by filters the host registers explicitly
+  ("minijinja-contrib/src/filters/datetime.rs::dateformat", "contrib configuration key"),
+  ("minijinja-contrib/src/filters/datetime.rs::datetimeformat", "contrib configuration key"),
+  ("minijinja-contrib/src/filters/datetime.rs::get_timezone", "contrib configuration key"),
+  ("minijinja-contrib/src/filters/datetime.rs::timeformat", "contrib configuration key"),
+  ("minijinja-contrib/src/filters/mod.rs::truncate", "contrib configuration key"),
+  ("minijinja-contrib/src/rand.rs::for_state", "contrib configuration key")]
+
+/-- Source tie for "the VM's name resolution is the only reader of the context": every call
+site of `State::lookup` / `Context::load` / the context value / `known_variables` /
+`clone_base` / `call_macro` in `minijinja/src` and `minijinja-contrib/src` (regenerated from
+the sources) is one of the classified sites above; in particular no builtin filter, test,
+function or object method (`filters.rs`, `tests.rs`, `functions.rs`, `value/…`, pycompat)
+reads the context. -/
+theorem builtins_do_not_read_context :
+    (∀ r ∈ MJ.Gen.c18ContextReaders, r ∈ allowedContextReaders.map Prod.fst) ∧
+    (∀ r ∈ MJ.Gen.c18ContextReaders,
+      ¬ r.startsWith "minijinja/src/filters.rs" ∧ ¬ r.startsWith "minijinja/src/tests.rs" ∧
+      ¬ r.startsWith "minijinja/src/functions.rs" ∧ ¬ r.startsWith "minijinja/src/value/" ∧
+      ¬ r.startsWith "minijinja-contrib/src/pycompat.rs") := by
+  decide
+
+example : "minijinja/src/vm/mod.rs::eval_impl" ∈ MJ.Gen.c18ContextReaders := by decide
+
 /-- The analysis cannot hit `unwrap()` on an empty scope stack (either mode). -/
 theorem analysis_no_panic (t : List Stmt) :
     (walkList St.init t).bad = false ∧ (walkList St.initNested t).bad = false :=
